@@ -58,7 +58,10 @@ def run_one(pid, m, repo):
             if os.path.isdir(os.path.join(repo, sub)):
                 shutil.copytree(os.path.join(repo, sub), os.path.join(tmp, sub),
                                 ignore=shutil.ignore_patterns("__pycache__"))
-        if "patch" in m:
+        if m.get("alpha"):
+            from .alpha import rename_tree
+            rename_tree(os.path.join(tmp, "torchtt"), m["alpha"])
+        elif "patch" in m:
             p0 = subprocess.run(["git", "apply", "--unsafe-paths", f"--directory={tmp}", m["patch"]], cwd="/", capture_output=True, text=True)
             if p0.returncode != 0:
                 p0 = subprocess.run(["git", "apply", m["patch"]], cwd=tmp, capture_output=True, text=True)
@@ -123,16 +126,49 @@ def load_seeds(pid):
     return out
 
 
+def load_benign(pid):
+    """behaviour-preserving refactorings written by sub-agents (suite and differential digests identical): every check whose
+    property is anchored in a touched file must stay clean (recorded exception: the rank_chop reformulation is answered with exit 2)"""
+    import json
+    import re
+    out = []
+    root = os.path.join(VERIF, "benign")
+    if not os.path.isdir(root):
+        return out
+    files = set()
+    try:
+        for line in open(os.path.join(VERIF, "properties.jsonl")):
+            p = json.loads(line)
+            if p["id"] == pid:
+                files = set(p["anchors"]["files"])
+    except (OSError, ValueError, KeyError):
+        return out
+    for d in sorted(os.listdir(root)):
+        pp = os.path.join(root, d, "patch.diff")
+        if not os.path.exists(pp):
+            continue
+        touched = set(re.findall(r"^\+\+\+ b/(\S+)", open(pp).read(), re.M))
+        if not (touched & files):
+            continue
+        expect = "error" if (d == "R2-6" and pid in ("C01", "C02")) else "clean"
+        out.append(dict(name=f"benign:{d}", patch=pp, expect=expect))
+    return out
+
+
 def run(pids, jobs=16, reduced=False):
     repo = os.environ.get("TTSA_REPO", "/repo")
     pids = pids or ALL
     work = []
     for pid in pids:
+        if not os.path.exists(os.path.join(VERIF, "ttsa", "props", pid.lower() + ".py")):
+            continue          # no check registered for this property (not applicable)
         ms = load(pid)
         if reduced:
             ms = [m for m in ms if m.get("reduced")] or ms[:2]
         else:
-            ms = ms + load_seeds(pid)
+            ms = ms + load_seeds(pid) + load_benign(pid)
+        if ms and not reduced:
+            ms = ms + [dict(name="alpha-rename-all-locals", alpha="_r", expect="clean")]
         work += [(pid, m) for m in ms]
     if not work:
         print("[ttsa selftest] no mutants registered for", ",".join(pids))
